@@ -27,5 +27,5 @@ Quantified: {p['quantifier']['text']}
 
 ## Deliverables (put them in {wt}/out/)
 For k = 1..{n}: out/change_<k>.diff (output of `git diff -- tdgl` with ONLY change k applied, relative to the unchanged HEAD), out/demo_<k>.py, and out/notes_<k>.md saying: what the change is, why it breaks the property, exactly what is needed for it to manifest, and the test results before/after. Make the changes independent (each diff applies alone to the unchanged tree). Before finishing, run `git checkout -- tdgl` so the worktree's library code is back to the unchanged state (keep out/ and the demos).
-Housekeeping: test_solve.py::test_screening starts a background monitor subprocess (`python -m tdgl.visualize ... monitor`) that keeps spinning after the test; after every test run execute `pkill -f "[t]dgl.visualize"` (with the brackets, so that pkill does not match its own shell) (ignore its exit status).
+Never use `git stash` (the stash is shared by all worktrees of this repository and other people work in theirs concurrently); to set a change aside use `git diff -- tdgl > file; git checkout -- tdgl` and later `git apply file`. Housekeeping: test_solve.py::test_screening starts a background monitor subprocess (`python -m tdgl.visualize ... monitor`) that keeps spinning after the test; after every test run execute `pkill -f "[t]dgl.visualize"` (with the brackets, so that pkill does not match its own shell) (ignore its exit status).
 Reply with a short summary of the changes you made and where the files are.""")
